@@ -180,6 +180,11 @@ Ltac peel_eq H :=
              let E := fresh "E" in destruct a eqn:E; cbn [andthen] in H; [discriminate|]
          end.
 
+Ltac peel1 A E :=
+  match type of A with
+  | context [andthen ?a _] => destruct a eqn:E; cbn [andthen] in A; [discriminate|]
+  end.
+
 Section Oracle.
   Variable verify : jwk -> sigentry -> string -> bool.
   Variable H : hkind -> string -> list nat.
@@ -194,23 +199,20 @@ Section Oracle.
   Proof.
     intros v ks t m now c alg. split.
     - intro A. unfold verify_id_token in A. destruct m as [| | | |bytes c0]; try discriminate.
-      peel_eq A.
+      peel1 A C1. peel1 A C2. peel1 A C3. peel1 A C4.
       destruct (check_signature verify (v_algs v) ks t bytes) as [sa|] eqn:Hs; [|discriminate].
-      peel_eq A. inversion A; subst c0 sa. exists bytes. split; [reflexivity|]. split; [assumption|].
-      repeat match goal with
-             | X : chk_subject _ = None |- _ => apply chk_subject_none in X
-             | X : chk_issuer _ _ = None |- _ => apply chk_issuer_none in X
-             | X : chk_audience _ _ = None |- _ => apply chk_audience_none in X
-             | X : chk_azp _ _ = None |- _ => apply chk_azp_none in X; destruct X
-             | X : chk_expiration _ _ _ = None |- _ => apply chk_expiration_none in X
-             | X : chk_issued_at _ _ _ _ = None |- _ => apply chk_issued_at_none in X; destruct X as [? [? ?]]
-             | X : chk_nonce _ _ = None |- _ => apply chk_nonce_none in X
-             | X : chk_acr _ _ = None |- _ => apply chk_acr_none in X
-             | X : chk_auth_time _ _ _ = None |- _ => apply chk_auth_time_none in X
-             end.
-      unfold id_token_valid. repeat split; try assumption.
-      + match goal with X : _ -> is_zero_time (c_auth_time c) = false /\ _ |- _ => intro Y; now destruct (X Y) end.
-      + match goal with X : _ -> is_zero_time (c_auth_time c) = false /\ _ |- _ => destruct (X H0) as [_ Z]; exact Z end.
+      peel1 A C5. peel1 A C6. peel1 A C7. peel1 A C8. peel1 A C9.
+      inversion A; subst c0 sa. exists bytes. split; [reflexivity|]. split; [assumption|].
+      apply chk_subject_none in C1. apply chk_issuer_none in C2. apply chk_audience_none in C3.
+      apply chk_azp_none in C4. destruct C4 as [C4 C4'].
+      apply chk_expiration_none in C5.
+      apply chk_issued_at_none in C6. destruct C6 as [C6 [C6' C6'']].
+      apply chk_nonce_none in C7. apply chk_acr_none in C8.
+      pose proof (proj1 (chk_auth_time_none _ _ _) C9) as C9'.
+      unfold id_token_valid.
+      split; [assumption|]. split; [assumption|]. split; [assumption|]. split; [assumption|].
+      split; [assumption|]. split; [assumption|]. split; [assumption|]. split; [assumption|].
+      split; [assumption|]. split; [assumption|]. split; [assumption|]. exact C9'.
     - intros [bytes [Hm [Hs V]]]. subst m. unfold verify_id_token, id_token_valid in *.
       destruct V as (V1 & V2 & V3 & V4 & V5 & V6 & V7 & V8 & V9 & V10 & V11 & V12).
       assert (A1 : chk_subject c = None) by now apply chk_subject_none.
@@ -473,3 +475,22 @@ Example wf_nonvacuous :
   wf (IIDToken (mkVerifier "i" "c" 1000000000 0 0 None None []) (KSOpenID None) TMalformed MidSegments None
                1700000000000000000 1700000000000000100).
 Proof. cbn. unfold zero_unix, ns. lia. Qed.
+
+(* non-vacuity of C01_complete / C01_sound: a concrete accepted token *)
+Definition ex_v : verifier := mkVerifier "iss" "c" 1000000000 3600000000000 3600000000000 (Some "n") (Some ["gold"]) [].
+Definition ex_c : claims := mkClaims "iss" "sub" ["c"; "api"] "c" 1700003600 1699999990 1699999900 "n" "gold" "" "" "" "".
+Definition ex_now : Z := 1700000000000000000.
+
+Example complete_nonvacuous :
+  check_signature sym_verify (v_algs ex_v) (KSOpenID (Some [ex_key])) (TCompact ex_entry "P") "P" = Ok "RS256"
+  /\ id_token_margin ex_v ex_c ex_now.
+Proof.
+  split; [vm_compute; reflexivity|].
+  unfold id_token_margin, nonce_ok, acr_ok, ex_v, ex_c, ex_now, ns; cbn.
+  repeat split; try lia; try discriminate; try reflexivity; auto.
+Qed.
+
+Example sound_nonvacuous :
+  verify_id_token sym_verify ex_v (KSOpenID (Some [ex_key])) (TCompact ex_entry "P") (MidOk "P" ex_c) ex_now
+  = Accept ex_c "RS256".
+Proof. vm_compute. reflexivity. Qed.
